@@ -22,6 +22,7 @@ open Ezpz
 #check @GN.step_unique
 #check @GN.contraction_gives_C02
 #check @GN.gauss_newton_local_C02
+#check @GN.gauss_newton_local_C02_of_continuous_jacobian
 #check @GN.damped_defect_on_kernel                 -- why F15 happens
 
 /-! ### C03 — priorities -/
@@ -35,6 +36,8 @@ open Ezpz
 #check @GN.tikhonov_step
 #check @GN.nearest_least_squares
 #check @GN.linear_consistent_converges
+#check @GN.gap_exists
+#check @GN.linear_consistent_converges_from_guess
 #check @linear_kinds_affine
 
 /-! ### C05 — freedom analysis -/
